@@ -1,11 +1,14 @@
 (* C06 property theorems.  Nothing but statements closed by `exact`, each followed by Print Assumptions.
-   k = K - 6; B k = 2^(2^K); val is the integer a limb tree denotes; wf = every limb in [0, 2^64). *)
+   k = K - 6; B k = 2^(2^K); val is the integer a limb tree denotes; wf = every limb in [0, 2^64);
+   thr = __RECINT_THRESHOLD_KARA - 6 (every theorem holds for every threshold). *)
 From Coq Require Import ZArith.
-From C06 Require Import Model ProofsBase ProofsAdd ProofsProps.
+From C06 Require Import Model ProofsBase ProofsRepr ProofsAdd ProofsBits ProofsShift ProofsMul ProofsKara ProofsMulTop ProofsProps.
 Local Open Scope Z_scope.
 
 Theorem C06_representation : Repr_exact.            Proof. exact repr_exact. Qed.
 Print Assumptions C06_representation.
+Theorem C06_wrappers_faithful : Wrappers_faithful.  Proof. exact wrappers_faithful. Qed.
+Print Assumptions C06_wrappers_faithful.
 Theorem C06_add_carry_exact : Add_exact.            Proof. exact add_exact. Qed.
 Print Assumptions C06_add_carry_exact.
 Theorem C06_add_with_carry_in_exact : Add_wc_exact. Proof. exact add_wc_exact. Qed.
@@ -20,3 +23,29 @@ Theorem C06_sub_with_borrow_in_exact : Sub_wc_exact. Proof. exact sub_wc_exact. 
 Print Assumptions C06_sub_with_borrow_in_exact.
 Theorem C06_compare_exact : Cmp_exact.              Proof. exact cmp_spec. Qed.
 Print Assumptions C06_compare_exact.
+Theorem C06_lmul_naive_exact : Lmul_exact lmul_naive. Proof. exact lmul_naive_exact. Qed.
+Print Assumptions C06_lmul_naive_exact.
+Theorem C06_lmul_karatsuba_exact : Lmul_exact lmul_kara. Proof. exact lmul_kara_exact. Qed.
+Print Assumptions C06_lmul_karatsuba_exact.
+Theorem C06_lmul_exact : Lmul_exact lmul.           Proof. exact lmul_exact. Qed.
+Print Assumptions C06_lmul_exact.
+Theorem C06_karatsuba_equals_naive : Kara_eq_naive. Proof. exact lmul_kara_eq_naive. Qed.
+Print Assumptions C06_karatsuba_equals_naive.
+Theorem C06_laddmul_exact : Laddmul_exact.          Proof. exact laddmul_exact. Qed.
+Print Assumptions C06_laddmul_exact.
+Theorem C06_laddmul_wide_addend_exact : Laddmul2_exact. Proof. exact laddmul2_exact. Qed.
+Print Assumptions C06_laddmul_wide_addend_exact.
+Theorem C06_mul_truncated_exact : Mul_exact.        Proof. exact mul_spec. Qed.
+Print Assumptions C06_mul_truncated_exact.
+Theorem C06_addmul_exact : Addmul_exact.            Proof. exact addmul_spec. Qed.
+Print Assumptions C06_addmul_exact.
+Theorem C06_bit_operations_exact : Bitops_exact.    Proof. exact bitops_exact. Qed.
+Print Assumptions C06_bit_operations_exact.
+Theorem C06_shift_left_exact : Shl_exact.           Proof. exact shl_exact. Qed.
+Print Assumptions C06_shift_left_exact.
+Theorem C06_shift_right_exact : Shr_exact.          Proof. exact shr_exact. Qed.
+Print Assumptions C06_shift_right_exact.
+Theorem C06_shift_by_one_exact : Shift1_exact.      Proof. exact shift1_exact. Qed.
+Print Assumptions C06_shift_by_one_exact.
+Theorem C06_shift_left_widening_exact : Shl_ext_exact. Proof. exact shl_ext_exact. Qed.
+Print Assumptions C06_shift_left_widening_exact.
